@@ -32,7 +32,7 @@ def to_jsonable(o):
             return {'__f': repr(o)}
         return o
     if isinstance(o, int) and not isinstance(o, bool) and abs(o) >= 2 ** 53:
-        return {'__i': str(o)}
+        return {'__i': hex(o)}
     if o is None or isinstance(o, (bool, int, str)):
         return o
     return {'__r': repr(o)}
@@ -49,7 +49,7 @@ def from_jsonable(o):
         if '__f' in o:
             return float(o['__f'])
         if '__i' in o:
-            return int(o['__i'])
+            return int(o['__i'], 16) if 'x' in o['__i'] else int(o['__i'])
         if '__r' in o:
             return o['__r']
         if '__d' in o:
